@@ -8,6 +8,7 @@ class StringLiteralInit:
     The constants 15 / 20 are taken from the property, not from the code."""
     sorts = {"literals": "set", "literals[]": "str", "_literals[]": "str"}
     modifies = ["_overflow", "_literals"]
+    modifies_self = ["_overflow", "_literals"]
 
     def ensures(self, literals):
         return {
@@ -351,19 +352,121 @@ def resolve_inner(self, types, replaced, flag, _it, _seq):
     }
 
 
-@contract("json_to_models/dynamic_typing/complex.py::DUnion.__init__", props=["C08", "C10", "C01", "C02", "C07"], verify=False)
+@contract("json_to_models/dynamic_typing/base.py::get_hash_string", props=["C08"], verify=False, deterministic=True)
+class GetHashString:
+    """A-HASH (assumed): the hash string is a deterministic function of the type's structure; equal hash strings mean equal types
+    (audited by the bounded normal-form stand-ins; known to be weak for literal sets whose comma-joins coincide)"""
+    sorts = {"result": "str"}
+    modifies = ["_hash"]
+
+    def ensures(self, t, result):
+        return {"only_str_hashes_like_str": implies(result == get_hash_string(str), t is str)}
+
+
+@contract("json_to_models/dynamic_typing/complex.py::DUnion._extract_nested_types", props=["C08"], verify=False, deterministic=True)
+class ExtractNested:
+    """flattened members of a union (recursive generator: bounded only)"""
+    sorts = {"result": "list"}
+
+    def ensures(self, result):
+        return {"flat": forall(result, lambda m: not isinstance(m, DUnion)), "is_list": ty_is(result, list)}
+
+
+@spec
+def lit_source(types, n, x):
+    """string x occurs in a non-overflowed literal among the first n (flattened) arguments"""
+    return exists(range(n), lambda i: (isinstance(at(types, i), StringLiteral) and not attr_bool(at(types, i), "_overflow") and x in attr_set(at(types, i), "_literals"))
+                  or (isinstance(at(types, i), DUnion) and exists(range(seq_len(DUnion._extract_nested_types(at(types, i)))), lambda j:
+                      isinstance(at(DUnion._extract_nested_types(at(types, i)), j), StringLiteral) and not attr_bool(at(DUnion._extract_nested_types(at(types, i)), j), "_overflow")
+                      and x in attr_set(at(DUnion._extract_nested_types(at(types, i)), j), "_literals"))))
+
+
+@spec
+def flat_upto(types, n, x):
+    """x is one of the flattened arguments among the first n arguments"""
+    return exists(range(n), lambda i: (not isinstance(at(types, i), DUnion) and x is at(types, i))
+                  or (isinstance(at(types, i), DUnion) and exists(range(seq_len(DUnion._extract_nested_types(at(types, i)))),
+                                                                  lambda j: at(DUnion._extract_nested_types(at(types, i)), j) is x)))
+
+
+@contract("json_to_models/dynamic_typing/complex.py::DUnion.__init__", props=["C08", "C10", "C01", "C02", "C07"])
 class DUnionInit:
-    """(stub for callers; the real clauses U1-U6 are attached below once verified)"""
-    sorts = {"types": "tuple"}
-    modifies = ["_types", "_sorted", "_hash"]
+    """C08: a union is built flat (no member is a union) and without duplicates (members have pairwise different hash strings);
+    C01: de-duplication only drops an argument whose hash string equals a kept member's; C02: every member is one of the (flattened)
+    arguments, or `str`, or the one merged string literal."""
+    sorts = {"types": "tuple", "unique_types": "list", "hashes": "set", "hashes[]": "str", "str_literals": "set", "use_literals": "any",
+             "_types": "list", "t": "any", "t2": "any"}
+    modifies = ["_types", "_sorted", "_hash", "_overflow", "_literals"]
+    modifies_self = ["_types", "_sorted"]
 
     def ensures(self, types):
-        return {"has_members_list": ty_is(self._types, list)}
+        ms = self._types
+        return {
+            "flat@C08": forall(range(seq_len(ms)), lambda k: not isinstance(at(ms, k), DUnion)),
+            "members_from_arguments@C02": forall(range(seq_len(ms)), lambda k: at(ms, k) is str or isinstance(at(ms, k), StringLiteral) or flat_upto(types, seq_len(types), at(ms, k))),
+            "no_duplicate_hashes@C08": forall(range(seq_len(ms)), lambda k: forall(range(k), lambda l: implies(
+                not isinstance(at(ms, k), StringLiteral) and not isinstance(at(ms, l), StringLiteral), not (get_hash_string(at(ms, k)) == get_hash_string(at(ms, l)))))),
+            "at_most_one_literal@C08": forall(range(seq_len(ms)), lambda k: forall(range(k), lambda l: not (isinstance(at(ms, k), StringLiteral) and isinstance(at(ms, l), StringLiteral)))),
+            "dedup_only_by_hash@C01": forall(range(seq_len(types)), lambda i: implies(
+                not isinstance(at(types, i), DUnion) and not isinstance(at(types, i), StringLiteral),
+                exists(range(seq_len(ms)), lambda k: get_hash_string(at(ms, k)) == get_hash_string(at(types, i))))),
+            "str_excludes_literal@C08": forall(range(seq_len(ms)), lambda k: forall(range(seq_len(ms)), lambda l: not (at(ms, k) is str and isinstance(at(ms, l), StringLiteral)))),
+            "literal_member_not_overflowed@C10": forall(range(seq_len(ms)), lambda k: implies(isinstance(at(ms, k), StringLiteral), not attr_bool(at(ms, k), "_overflow"))),
+            "literal_lists_only_observed_strings@C02,C10": forall(range(seq_len(ms)), lambda k: implies(
+                isinstance(at(ms, k), StringLiteral),
+                forall(attr_set(at(ms, k), "_literals"), lambda x: lit_source(types, seq_len(types), x)))),
+            "literals_kept_when_nothing_generalised@C10,C07": implies(
+                forall(range(seq_len(types)), lambda i: not isinstance(at(types, i), DUnion))
+                and forall(range(seq_len(types)), lambda i: not (at(types, i) is str) and implies(isinstance(at(types, i), StringLiteral), not attr_bool(at(types, i), "_overflow")))
+                and exists(range(seq_len(types)), lambda i: isinstance(at(types, i), StringLiteral) and card(attr_set(at(types, i), "_literals")) > 0),
+                exists(range(seq_len(ms)), lambda k: (isinstance(at(ms, k), StringLiteral) and forall(range(seq_len(types)), lambda i: implies(
+                    isinstance(at(types, i), StringLiteral), subset(attr_set(at(types, i), "_literals"), attr_set(at(ms, k), "_literals")))))
+                    or at(ms, k) is str)),
+        }
+
+
+@loop("json_to_models/dynamic_typing/complex.py::DUnion.__init__", 1)
+def dunion_outer(types, unique_types, hashes, str_literals, use_literals, _it, _seq):
+    return {
+        "members_ok": forall(range(seq_len(unique_types)), lambda k: not isinstance(at(unique_types, k), DUnion) and not isinstance(at(unique_types, k), StringLiteral)
+                             and flat_upto(types, _it, at(unique_types, k))),
+        "hashes_of_members": forall(range(seq_len(unique_types)), lambda k: get_hash_string(at(unique_types, k)) in hashes),
+        "members_of_hashes": forall(hashes, lambda h: exists(range(seq_len(unique_types)), lambda k: get_hash_string(at(unique_types, k)) == sval(h))),
+        "distinct_hashes": forall(range(seq_len(unique_types)), lambda k: forall(range(k), lambda l: not (get_hash_string(at(unique_types, k)) == get_hash_string(at(unique_types, l))))),
+        "is_list": ty_is(unique_types, list),
+        "kept_or_same_hash": forall(range(_it), lambda i: implies(not isinstance(_seq[i], DUnion) and not isinstance(_seq[i], StringLiteral), get_hash_string(_seq[i]) in hashes)),
+        "literals_observed": forall(str_literals, lambda x: lit_source(types, _it, x)),
+        "while_literals_enabled": implies(truthy(use_literals), forall(range(_it), lambda i: not (_seq[i] is str) and implies(
+            isinstance(_seq[i], StringLiteral), not attr_bool(_seq[i], "_overflow") and subset(attr_set(_seq[i], "_literals"), str_literals)))),
+        "disabled_only_by_generalisation": implies(not truthy(use_literals), exists(range(_it), lambda i: _seq[i] is str or isinstance(_seq[i], DUnion)
+                                                                                   or (isinstance(_seq[i], StringLiteral) and attr_bool(_seq[i], "_overflow")))),
+        "str_member_disables": implies(exists(range(seq_len(unique_types)), lambda k: at(unique_types, k) is str), not truthy(use_literals)),
+    }
+
+
+@loop("json_to_models/dynamic_typing/complex.py::DUnion.__init__", 2)
+def dunion_inner(types, unique_types, hashes, str_literals, use_literals, pre_unique_types, pre_hashes, pre_str_literals, pre_use_literals, _it, _seq):
+    return {
+        "members_ok": forall(range(seq_len(unique_types)), lambda k: not isinstance(at(unique_types, k), DUnion) and not isinstance(at(unique_types, k), StringLiteral)
+                             and (exists(range(seq_len(pre_unique_types)), lambda q: at(pre_unique_types, q) is at(unique_types, k))
+                                  or exists(range(_it), lambda j: _seq[j] is at(unique_types, k)))),
+        "hashes_of_members": forall(range(seq_len(unique_types)), lambda k: get_hash_string(at(unique_types, k)) in hashes),
+        "members_of_hashes": forall(hashes, lambda h: exists(range(seq_len(unique_types)), lambda k: get_hash_string(at(unique_types, k)) == sval(h))),
+        "distinct_hashes": forall(range(seq_len(unique_types)), lambda k: forall(range(k), lambda l: not (get_hash_string(at(unique_types, k)) == get_hash_string(at(unique_types, l))))),
+        "is_list": ty_is(unique_types, list),
+        "old_hashes_kept": forall(pre_hashes, lambda h: h in hashes),
+        "literals_observed": forall(str_literals, lambda x: x in pre_str_literals or exists(range(_it), lambda j: isinstance(_seq[j], StringLiteral)
+                                                                                          and not attr_bool(_seq[j], "_overflow") and x in attr_set(_seq[j], "_literals"))),
+        "str_member_disables": implies(exists(range(seq_len(unique_types)), lambda k: at(unique_types, k) is str), not truthy(use_literals)),
+        "enabled_only_if_was": implies(truthy(use_literals), truthy(pre_use_literals)),
+        "literals_grow": subset(pre_str_literals, str_literals),
+    }
 
 
 @contract("json_to_models/dynamic_typing/complex.py::SingleType.__init__", props=[])
 class SingleTypeInit:
     modifies = ["_type", "_hash"]
+    modifies_self = ["_type", "_hash"]
 
     def ensures(self, t):
         return {"wraps": self._type is t, "hash_reset": is_none(self._hash)}
